@@ -1732,7 +1732,7 @@ class Table(Vector):
 		# 4. Name sanitization helpers
 		# ------------------------------------------------------------------
 		def make_agg_name(col, suffix):
-			base = col._name or "col"
+			base = "col" if col._name is None or col._name == "" else col._name  # a label such as 0 is a name
 			s = _sanitize_user_name(base)
 			if s is None:
 				s = "col"
@@ -1760,7 +1760,7 @@ class Table(Vector):
 		# Pre-bind: this is fast because group_items holds (key, rows)
 		for idx, col in enumerate(over):
 			values = [key[idx] for key, _ in group_items]
-			result_cols.append(Vector(values, name=uniquify(col._name or "key")))
+			result_cols.append(Vector(values, name=uniquify("key" if col._name is None or col._name == "" else col._name)))
 		
 		# ------------------------------------------------------------------
 		# 6. Column-major helper: aggregate one column for all groups
@@ -1990,7 +1990,7 @@ class Table(Vector):
 		used = set()
 		
 		def sanitize(col, suffix):
-			base = col._name or "col"
+			base = "col" if col._name is None or col._name == "" else col._name  # a label such as 0 is a name
 			s = _sanitize_user_name(base) or "col"
 			return f"{s}_{suffix}"
 		
@@ -2011,7 +2011,7 @@ class Table(Vector):
 		result_cols = []
 		for col in over:
 			result_cols.append(
-				Vector(list(col), name=uniquify(col._name or "key"))
+				Vector(list(col), name=uniquify("key" if col._name is None or col._name == "" else col._name))
 			)
 		
 		# ----------------------------------------------------------------------
